@@ -177,7 +177,7 @@ func c06Scenario(r *vx.Rand) {
 func runC06() {
 	n := 3000
 	if run.Thorough() {
-		n = 60000
+		n = 46000
 	}
 	n = scaled(n)
 	for i := 0; i < n; i++ {
